@@ -60,7 +60,7 @@ def run_shard(spec, acc):
                         continue
                     if thorough:
                         fus = [shape] + [f for f in all_shapes if f.name != shape.name and
-                                         f.name != "uiHeartbeat.hbmode"]
+                                         f.name not in ("uiHeartbeat.hbmode", "version")]
                         js = [0, 1, 2, 3]
                     else:
                         fus = [shape, rng.choice(followers)]
@@ -70,6 +70,8 @@ def run_shard(spec, acc):
                             variants = ["plain"]
                             if j == 0 and (thorough or rng.random() < 0.3):
                                 variants.append("reboot")
+                            if (thorough and j < 2) or rng.random() < 0.2:
+                                variants.append("vbetween")
                             if thorough or rng.random() < 0.25:
                                 variants.append("double:%d:%s" % (
                                     rng.randrange(1, 4),
@@ -116,7 +118,7 @@ def run_case(acc, c, roles=None):
         d["role"] = role
         acc.violation(mech, d, c)
 
-    dev = fl.make_device(shape)
+    dev = fl.make_device(shape, also=[fu])
     with Stack(dev, version_one=v1) as s:
         s.initialize()
         if shape.post:
@@ -162,6 +164,17 @@ def run_case(acc, c, roles=None):
             dev.unlocked = False
         old_handle = s.bus.handle_seq
         s.bus.enumerate_fail = c["j"]
+        if c["variant"] == "vbetween":
+            # a request that needs no device ("version") neither repairs nor fails,
+            # and leaves the repair pending for the next device request
+            mark = len(s.bus.events)
+            rv, ev, _ = s.request({"command": "version"})
+            acc.count("version_between")
+            if ev is not None or not isinstance(rv, dict) or rv.get("errorcode") != 0:
+                return bad("version-request-failed-while-repair-pending", reply=rv,
+                           exc=repr(ev))
+            if any(e["ev"] == "apdu" for e in s.bus.events[mark:]):
+                return bad("version-request-sent-apdus-while-repair-pending")
         for attempt in range(c["j"]):
             s.bus.arm({})
             mark = len(s.bus.events)
